@@ -320,4 +320,111 @@ theorem foldl_sameBut (h : Nat) (k : ExitKind) (s t : St) (hs : SameBut h s t) (
     simp only [List.map_cons, List.foldl_cons]
     exact ih _ _ (stepSpec_sameBut h k s t hs ev)
 
+/-! ### several connections -/
+
+/-- What `respOf`/`exitOf`/composition statements use: the id and code of a message. -/
+def respOf (m : Message) : Resp := ⟨m.header.id, m.header.ec⟩
+
+/-- How this model's exit kinds read a handler outcome of C03's model. -/
+def exitOf : HOut → ExitKind
+  | .ok _ => .ret
+  | .err c _ => .err c
+
+theorem inv_outbound (t : St) (o : List Resp) : Inv { t with outbound := o } ↔ Inv t := by
+  unfold Inv Free; simp
+
+theorem modifyNth_mem {α} (l : List α) (i : Nat) (g : α → α) (x : α) (hx : x ∈ modifyNth l i g) :
+    x ∈ l ∨ ∃ a ∈ l, x = g a := by
+  induction l generalizing i with
+  | nil => simp [modifyNth] at hx
+  | cons a rest ih =>
+    cases i with
+    | zero =>
+      simp only [modifyNth, List.mem_cons] at hx
+      rcases hx with hx | hx
+      · exact .inr ⟨a, List.mem_cons_self .., hx⟩
+      · exact .inl (List.mem_cons_of_mem _ hx)
+    | succ i =>
+      simp only [modifyNth, List.mem_cons] at hx
+      rcases hx with hx | hx
+      · subst hx; exact .inl (List.mem_cons_self ..)
+      · rcases ih i hx with h | ⟨b, hb, he⟩
+        · exact .inl (List.mem_cons_of_mem _ h)
+        · exact .inr ⟨b, List.mem_cons_of_mem _ hb, he⟩
+
+theorem modifyNth_getElem?_ne {α} (l : List α) (i j : Nat) (g : α → α) (h : j ≠ i) :
+    (modifyNth l i g)[j]? = l[j]? := by
+  induction l generalizing i j with
+  | nil => simp [modifyNth]
+  | cons a rest ih =>
+    cases i with
+    | zero =>
+      cases j with
+      | zero => exact absurd rfl h
+      | succ j => simp [modifyNth]
+    | succ i =>
+      cases j with
+      | zero => simp [modifyNth]
+      | succ j => simp only [modifyNth, List.getElem?_cons_succ]; exact ih i j (by omega)
+
+theorem modifyNth_length {α} (l : List α) (i : Nat) (g : α → α) : (modifyNth l i g).length = l.length := by
+  induction l generalizing i with
+  | nil => rfl
+  | cons a rest ih => cases i <;> simp [modifyNth, ih]
+
+/-- A connection step under the specification facts keeps the permit invariant and the cap, open or closed. -/
+theorem connStep_inv (c : Conn) (hi : Inv c.st) (e : Ev) :
+    Inv (connStep specOffFacts c e).st ∧ (connStep specOffFacts c e).st.cap = c.st.cap ∧
+    (connStep specOffFacts c e).closed = c.closed := by
+  by_cases hc : c.closed = true
+  · cases e with
+    | arrive a =>
+      have : connStep specOffFacts c (.arrive a) = c := by simp [connStep, hc]
+      rw [this]; exact ⟨hi, rfl, rfl⟩
+    | exit id k =>
+      have : connStep specOffFacts c (.exit id k) =
+          { c with st := { (step specOffFacts c.st (.exit id k)) with outbound := c.st.outbound } } := by
+        simp [connStep, hc]
+      rw [this]
+      refine ⟨?_, ?_, rfl⟩
+      · show Inv { (step specOffFacts c.st (.exit id k)) with outbound := c.st.outbound }
+        rw [inv_outbound, step_spec c.st hi.1]; exact stepSpec_inv c.st hi _
+      · show (step specOffFacts c.st (.exit id k)).cap = c.st.cap
+        rw [step_spec c.st hi.1, stepSpec_cap]
+  · have : connStep specOffFacts c e = { c with st := step specOffFacts c.st e } := by
+      simp [connStep, hc]
+    rw [this]
+    refine ⟨?_, ?_, rfl⟩
+    · show Inv (step specOffFacts c.st e); rw [step_spec c.st hi.1]; exact stepSpec_inv c.st hi _
+    · show (step specOffFacts c.st e).cap = c.st.cap; rw [step_spec c.st hi.1, stepSpec_cap]
+
+theorem srun_inv (cf : CapFacts) (setting : CapSetting) (evs : List SEv) (conns : List Conn)
+    (h0 : ∀ c ∈ conns, Inv c.st ∧ c.st.cap = connectionCap cf setting) :
+    ∀ c ∈ evs.foldl (sstep specOffFacts cf setting) conns,
+      Inv c.st ∧ c.st.cap = connectionCap cf setting := by
+  induction evs generalizing conns with
+  | nil => exact h0
+  | cons e rest ih =>
+    simp only [List.foldl_cons]
+    apply ih
+    intro c hc
+    cases e with
+    | connect =>
+      simp only [sstep] at hc
+      rcases List.mem_append.mp hc with hc | hc
+      · exact h0 c hc
+      · simp at hc; subst hc; exact ⟨inv_init _, rfl⟩
+    | ev i e =>
+      simp only [sstep] at hc
+      rcases modifyNth_mem _ _ _ _ hc with hc | ⟨a, ha, he⟩
+      · exact h0 c hc
+      · subst he
+        obtain ⟨h1, h2, _⟩ := connStep_inv a (h0 a ha).1 e
+        exact ⟨h1, by rw [h2]; exact (h0 a ha).2⟩
+    | disconnect i =>
+      simp only [sstep] at hc
+      rcases modifyNth_mem _ _ _ _ hc with hc | ⟨a, ha, he⟩
+      · exact h0 c hc
+      · subst he; exact h0 a ha
+
 end Repe
